@@ -325,6 +325,24 @@ def install(eng):
     def _partial(eng, f, *a, **k):
         return I.Model("partial", lambda eng_, *b, **kb: eng_.call(f, list(a) + list(b), {**k, **kb}))
 
+    @model("builtins.next")
+    def _next(eng, it, *default):
+        # first element of a concrete iterable / generator expression (the rest of the iterator is not used afterwards in the supported patterns)
+        if isinstance(it, (list, tuple)) or type(it).__name__ in ("SymList", "LazySeq"):
+            raise I.PyRaise("TypeError", ("object is not an iterator",))
+        vals = list(M.iterate(eng, it))
+        if vals:
+            return vals[0]
+        if default:
+            return default[0]
+        raise I.PyRaise("StopIteration", ())
+
+    @model("builtins.map")
+    def _map(eng, f, *its):
+        # evaluated eagerly over concrete-length iterables (the mapped function must be pure for this to be faithful)
+        seqs = [list(M.iterate(eng, it)) for it in its]
+        return [eng.call(f, list(xs), {}) for xs in zip(*seqs)]
+
     @model("functools.reduce")
     def _reduce(eng, f, it, *init):
         vals = list(M.iterate(eng, it))          # concrete length only (a symbolic list needs a loop contract)
